@@ -52,7 +52,7 @@ static void scenario_DR(long trials)
 // A worker born by start() while _shutdown is still set exits at once and its map slot stays dead: the round cannot complete.
 static void scenario_RS(long rounds)
 {
-  constexpr std::size_t N = 4;
+  constexpr std::size_t N = 16;      // many initial workers: the spawn loop is long, so early workers run before start() gets any further
   iora::core::ThreadPool pool(N, N, std::chrono::seconds(30), 64);
   for (long round = 0; round < rounds; ++round)
   {
@@ -67,7 +67,7 @@ static void scenario_RS(long rounds)
     for (auto &f : futs) if (f.wait_for(std::chrono::seconds(2)) != std::future_status::ready) { ok = false; break; }
     if (!ok)
     {
-      std::string msg = "ST4 round " + std::to_string(round) + ": accepted tasks not executed after restart: " + std::to_string(arrived.load()) + " of 4 started, map holds " +
+      std::string msg = "ST4 round " + std::to_string(round) + ": accepted tasks not executed after restart: " + std::to_string(arrived.load()) + " of 16 started, map holds " +
         std::to_string(pool.getTotalThreadCount()) + " workers, " + std::to_string(pool._threadsCreated.load() - pool._threadsExited.load()) + " alive, " + std::to_string(pool.getPendingTaskCount()) + " tasks still queued";
       giveUp = true;
       for (auto &f : futs) f.wait_for(std::chrono::seconds(1));
